@@ -86,15 +86,19 @@ func ZZ_C16_Reader() {
 	for i := 0; i < nT; i++ {
 		tn := typePool[zzrt.Choose(len(typePool))]
 		if tn == zzTyU {
-			// the unregistered name is, once per envelope, either a well-formed name nobody registered or the
-			// empty string
+			// the unregistered name is, once per envelope, a well-formed name nobody registered, the empty
+			// string, or the full name of something in the module's .proto files that is not a message (a
+			// field, a service): no message type answers to it, but the descriptor registry knows it
 			if !unknownChosen {
 				unknownChosen = true
-				typePool[2] = []string{zzTyU, ""}[zzrt.Choose(2)]
+				typePool[2] = []string{zzTyU, "", "actor.PID.address", "remote.Remote"}[zzrt.Choose(4)]
 			}
 			tn = typePool[2]
 			if tn == "" {
 				zzrt.Reach("empty-type-name")
+			}
+			if tn == "remote.Remote" {
+				zzrt.Reach("type-name-of-a-service")
 			}
 		}
 		env.TypeNames = append(env.TypeNames, tn)
